@@ -32,6 +32,7 @@ def run(ctx) -> None:
     from . import c04, c05, c08
 
     ctx.reuse("C20.parallel", c08.grid_construction)
+    ctx.reuse("C20.parallel", c08.id_width)
     ctx.reuse("C20.parallel", c04.trough_alias)
     ctx.reuse("C20.composition-init", c05.default_name)
     ctx.reuse("C20.composition-init", c05.trough_names)
